@@ -264,7 +264,9 @@ def lean_call(requests: list[dict], timeout=3000) -> list[dict]:
     else:
         cmd = ["lake", "env", "lean", "--run", "Main.lean"]
     p = subprocess.run(cmd, cwd=LEAN, input=data.encode("utf-8"), capture_output=True, timeout=timeout)
-    lines = p.stdout.decode("utf-8").splitlines()
+    lines = p.stdout.decode("utf-8").split("\n")    # not splitlines(): answers may hold NEL / U+2028 / FF inside strings
+    if lines and lines[-1] == "":
+        lines.pop()
     if len(lines) != len(requests):
         raise RuntimeError(f"driver returned {len(lines)} answers for {len(requests)} requests; rc={p.returncode} stderr={p.stderr[-400:]!r}")
     return [json.loads(l) for l in lines]
